@@ -455,10 +455,9 @@ def c08_hist_cases(tier, seed):
             elif a == "init":
                 ops.append({"op": "initialize", "state": rng.random() < 0.7, "log": rng.random() < 0.8})
             elif a == "sim_keep_logs":      # state re-initialised, logs (and time) continue
-                ops.append({"op": "simulate", "initState": True, "initLog": False, "light": True,
-                            "opts": {"maxTime": 60}})
+                ops.append({"op": "simulate", "initState": True, "initLog": False, "opts": {"maxTime": 60}})
             elif a == "sim_keep_state":     # logs (and time) re-initialised, state kept
-                ops.append({"op": "simulate", "initState": False, "initLog": True, "light": True})
+                ops.append({"op": "simulate", "initState": False, "initLog": True})
             elif a == "pause_resume":
                 ops += [{"op": "simulate", "opts": {"maxTime": rng.randint(0, 6)}, "light": True},
                         {"op": "simulate", "initState": False, "initLog": False}]
@@ -514,3 +513,59 @@ PLANS["C05"]["cases"] = both(PLANS["C05"]["cases"], c05_maxtime_cases)
 PLANS["C08"]["cases"] = both(PLANS["C08"]["cases"], c08_hist_cases, unit2_cases())
 PLANS["C10"]["cases"] = both(PLANS["C10"]["cases"], c10_hist_cases)
 UNREGISTERED |= set()
+
+
+def situations(recs):
+    """Anti-vacuity counters: how often the situations the clauses speak about occurred in the
+    recorded runs (computed from the recorded events / final logs)."""
+    c = {"worker_allocations": 0, "facility_pair_allocations": 0, "tasks_finished": 0,
+         "finish_blocked_by_FF_or_SF_gate": 0, "absence_steps": 0, "steps": 0, "component_moves": 0,
+         "steps_with_contention": 0, "resource_individually_absent_while_assigned": 0,
+         "runs_success": 0, "runs_failure": 0, "runs_crashed": 0, "history_comparisons": 0}
+    for case in recs:
+        cfg = case.get("cfg", {})
+        for r in case["runs"]:
+            if r.get("args", {}).get("cmp"):
+                c["history_comparisons"] += 1
+            if r["op"] not in ("simulate", "backward"):
+                continue
+            st = r.get("final", {}).get("lg", {}).get("status")
+            if r["ret"].startswith("exc"):
+                c["runs_crashed"] += 1
+            elif st == "SUCCESS":
+                c["runs_success"] += 1
+            elif st == "FAILURE":
+                c["runs_failure"] += 1
+            ev = r.get("ev", [])
+            prev = None
+            for e in ev:
+                s = e["st"]
+                if e["ph"] == "recorded":
+                    c["steps"] += 1
+                    if not e.get("working", True):
+                        c["absence_steps"] += 1
+                    free = sum(1 for x in s["ws"] if x == "FREE")
+                    waiting = sum(1 for i, x in enumerate(s["ts"]) if x == "READY" and not s["aw"][i])
+                    if waiting and not free:
+                        c["steps_with_contention"] += 1
+                    for w, x in enumerate(s["ws"]):
+                        if x == "ABSENCE" and s["wt"][w] and e.get("working", True):
+                            c["resource_individually_absent_while_assigned"] += 1
+                if prev is not None:
+                    p = prev["st"]
+                    if e["ph"] in ("alloc_task", "allocated") and len(p["ts"]) == len(s["ts"]):
+                        for i in range(len(s["ts"])):
+                            d = len(s["aw"][i]) - len(p["aw"][i])
+                            if d > 0:
+                                c["worker_allocations"] += d
+                                if len(s["af"][i]) > len(p["af"][i]):
+                                    c["facility_pair_allocations"] += d
+                        c["component_moves"] += sum(1 for a, b in zip(p["cp"], s["cp"]) if a != b and b != 0)
+                    if e["ph"] == "finished" and len(p["ts"]) == len(s["ts"]):
+                        for i in range(len(s["ts"])):
+                            if s["ts"][i] == "FINISHED" and p["ts"][i] != "FINISHED":
+                                c["tasks_finished"] += 1
+                            if s["ts"][i] == "WORKING" and s["rem"][i] <= 0:
+                                c["finish_blocked_by_FF_or_SF_gate"] += 1
+                prev = e
+    return c
